@@ -33,6 +33,16 @@ def tables():
         caught += all(x["verdict"] == "caught" for x in d.get("checks_run", {}).values()) and bool(d.get("checks_run"))
         out.append(f"| {d['id']} | {note} | {v} |")
     out.append(f"\n{caught} of {n} seeded changes caught by the quick tier of their own property (last `tools/seeded.py runall`).")
+    seeds = {}
+    for m in sorted(glob.glob(os.path.join(VERIF, "seeded", "*", "meta.json"))):
+        d = json.load(open(m))
+        for p, by in d.get("other_seeds", {}).items():
+            for sd, v in by.items():
+                seeds.setdefault(sd, [0, 0])
+                seeds[sd][0] += 1
+                seeds[sd][1] += v == "caught"
+    for sd in sorted(seeds):
+        out.append(f"At VERIF_SEED={sd} (`tools/seeded.py robust`): {seeds[sd][1]} of {seeds[sd][0]} caught.")
     return "\n".join(out)
 
 
